@@ -78,6 +78,9 @@ def main(argv=None):
             print('%s self-test: %d breaking edits applied, %d fired; %d neutral edits applied, %d silent; %d skipped' % (
                 prop, selftest['breaking_applied'], selftest['breaking_fired'],
                 selftest['neutral_applied'], selftest['neutral_silent'], selftest['skipped']))
+            seeds = selftest.get('seeds') or []
+            if seeds:
+                print('%s seeded changes: %s' % (prop, ', '.join('%s %s' % (x['id'], x['status']) for x in seeds)))
         return rc
     except AnalysisError as e:
         print('ANALYSIS-ERROR property=%s: %s' % (prop, e))
